@@ -448,19 +448,28 @@ def NotTemplate (v : Val) : Prop := ∀ s, v = .leaf (.str s) → s.toList.conta
 /-- the last two statements of `format_update_with`: `update_recursively(d, str_to_dict(key, vf))` is the
 recursive assignment of `vf` to the key path -/
 theorem fuw_tail (p : List String) (hne : p ≠ []) (hp : WFPath p) (vf : Val) (d : Entries) :
-    (match strToDict (joinDots p) (some vf) with
-     | .error e => (.error e : Except Exc Val)
-     | .ok fctx => updateRecursively (.dict d) (.val fctx) none) = .ok (.dict (ucSet true d p vf)) := by
+    assignFormatted (joinDots p) vf (.dict d) = .ok (.dict (ucSet true d p vf)) := by
   obtain ⟨k0, r, rfl⟩ : ∃ k0 r, p = k0 :: r := by
     cases p with
     | nil => exact absurd rfl hne
     | cons a b => exact ⟨a, b, rfl⟩
-  unfold strToDict
+  unfold assignFormatted strToDict
   rw [if_neg (joinDots_ne_empty _ hne hp)]
   simp only
   rw [splitDots_joinDots _ hne (fun k hk => (hp k hk).2), nestList_eq _ _ hne]
   simp only [updateRecursively, nestPath, Option.isSome_none, Bool.false_eq_true, if_false]
   rw [updRec_nestPath]
+
+theorem formatValue_plain (v d : Val) (hv : NotTemplate v) : formatValue v d = .ok v := by
+  unfold formatValue
+  cases v with
+  | dict o => rfl
+  | leaf a =>
+    cases a with
+    | str s => simp only [hv s rfl]; rfl
+    | none => rfl
+    | bool b => rfl
+    | int i => rfl
 
 /-- **format_update_with (plain value)** — `format_update_with(key, value, d)` with a value that is not a
 template is the recursive assignment of `value` to the key path; hence (`getPath_ucSet_same`,
@@ -468,16 +477,9 @@ template is the recursive assignment of `value` to the key path; hence (`getPath
 not prefix-comparable with the path is unchanged -/
 theorem fuw_plain (p : List String) (hne : p ≠ []) (hp : WFPath p) (v : Val) (hv : NotTemplate v) (d : Entries) :
     formatUpdateWith (joinDots p) v (.dict d) = .ok (.dict (ucSet true d p v)) := by
-  have := fuw_tail p hne hp v d
   unfold formatUpdateWith
-  cases v with
-  | dict o => simpa using this
-  | leaf a =>
-    cases a with
-    | str s => simp only [hv s rfl]; simpa using this
-    | none => simpa using this
-    | bool b => simpa using this
-    | int i => simpa using this
+  rw [formatValue_plain v _ hv]
+  exact fuw_tail p hne hp v d
 
 /-- **format_update_with (template)** — with a template value the rendered string is assigned; when a
 field is missing (`LenaKeyError`) or the template is malformed the exception leaves and nothing is
@@ -492,15 +494,14 @@ theorem fuw_template (p : List String) (hne : p ≠ []) (hp : WFPath p) (s : Str
       formatUpdateWith (joinDots p) (.leaf (.str s)) (.dict d) = .error e) := by
   refine ⟨?_, ?_, ?_⟩
   · intro fc r hi hr
-    have := fuw_tail p hne hp (.leaf (.str r)) d
-    unfold formatUpdateWith
+    unfold formatUpdateWith formatValue
     simp only [hs, hi, hr, if_true]
-    simpa using this
+    exact fuw_tail p hne hp _ d
   · intro fc e hi he
-    unfold formatUpdateWith
+    unfold formatUpdateWith formatValue
     simp only [hs, hi, he, if_true]
   · intro e hi
-    unfold formatUpdateWith
+    unfold formatUpdateWith formatValue
     simp only [hs, hi, if_true]
 
 /-- the empty key is rejected with `LenaValueError`, something that is not a dictionary with
@@ -508,28 +509,18 @@ theorem fuw_template (p : List String) (hne : p ≠ []) (hp : WFPath p) (s : Str
 theorem fuw_errors (v : Val) (hv : NotTemplate v) (d : Val) (p : List String) (hne : p ≠ []) (hp : WFPath p) (a : Leaf) :
     formatUpdateWith "" v d = .error .lenaValueError ∧
     formatUpdateWith (joinDots p) v (.leaf a) = .error .lenaTypeError := by
-  have h1 : ∀ key d, formatUpdateWith key v d =
-      match strToDict key (some v) with
-      | .error e => .error e
-      | .ok fctx => updateRecursively d (.val fctx) none := by
-    intro key d
-    unfold formatUpdateWith
-    cases v with
-    | dict o => rfl
-    | leaf a =>
-      cases a with
-      | str s => simp only [hv s rfl]; rfl
-      | none => rfl
-      | bool b => rfl
-      | int i => rfl
   constructor
-  · rw [h1]; rfl
-  · rw [h1]
+  · unfold formatUpdateWith
+    rw [formatValue_plain v _ hv]
+    rfl
+  · unfold formatUpdateWith
+    rw [formatValue_plain v _ hv]
     obtain ⟨k0, r, rfl⟩ : ∃ k0 r, p = k0 :: r := by
       cases p with
       | nil => exact absurd rfl hne
       | cons a b => exact ⟨a, b, rfl⟩
-    unfold strToDict
+    simp only
+    unfold assignFormatted strToDict
     rw [if_neg (joinDots_ne_empty _ hne hp)]
     simp only
     rw [splitDots_joinDots _ hne (fun k hk => (hp k hk).2), nestList_eq _ _ hne]
